@@ -330,6 +330,12 @@ impl Check for C18 {
         for (n, at, d) in [(9000u32, 400u32, 50u16), (20001, 30000, 2000), (50000, 100000, 1), (300000, 400000, 60000), (300000, 1000000, 200)] {
             v.push(SortCase { n, arrangement: 0, salt: 77, threads: 8, cancel_at: Some(at), lower_after: Some(d), ..b.clone() });
         }
+        // (a raised flag is only looked at when a level with a side of more than 2000 elements starts: several
+        // windows of 65000 comparisons each make it certain that one of them contains such a look)
+        for (k, at) in [100_000u32, 300_000, 500_000, 900_000, 1_500_000, 2_500_000, 3_500_000].into_iter().enumerate() {
+            v.push(SortCase { n: 300_000, arrangement: 0, salt: 100 + k as u32, threads: 8, cancel_at: Some(at), lower_after: Some(65_000), ..b.clone() });
+            v.push(SortCase { n: 120_000, arrangement: 0, salt: 200 + k as u32, threads: 4, cancel_at: Some(at / 3), lower_after: Some(40_000), ..b.clone() });
+        }
         // more worker threads than cores: per-thread scratch state of the matcher pool
         v.push(SortCase { n: 100, arrangement: 0, salt: 5, nucleo_items: 6000, ..b.clone() });
         v.push(SortCase { n: 100, arrangement: 0, salt: 9, nucleo_items: 3000, ..b.clone() });
